@@ -24,7 +24,7 @@ func run(param json.RawMessage, ctx *explore.Ctx, viols *[]xrun.Viol) string {
 	_ = json.Unmarshal(param, &cfg)
 	res := loopworld.Run(cfg, ctx)
 	for _, v := range res.Viols {
-		if strings.HasPrefix(v.Sig, "c09:") || strings.HasPrefix(v.Sig, "c10:") {
+		if !loopworld.Judged(v.Sig, "c03") {
 			continue // judged by their own checks
 		}
 		*viols = append(*viols, xrun.Viol{Sig: v.Sig, Msg: v.Msg})
